@@ -27,3 +27,223 @@ Proof. exact keepalive_delay_bounds. Qed.
 (** the send gate: with a selected pair, sending is allowed exactly while consent is held *)
 Theorem C13_send_gate : forall have, send_allowed true have = have.
 Proof. destruct have; reflexivity. Qed.
+
+(** ------------------------------------------------------------------------------------------------------------------------
+    SESSION LEVEL (Agent/ConsentSessionModel.v): one component, its selected pair, the consent timer, the agent-wide keepalive
+    timer, local consent, the component state and the table of remembered STUN transactions, driven by ARBITRARY event
+    sequences (keepalive ticks, consent ticks, answers of every kind, incoming checks, nice_agent_consent_lost, sends, new
+    selected pairs, ICE restarts, ...).  [valid L c s t0 evs]: evs is a run from s at clock t0 in which every timer fires 1 .. L
+    microseconds after it is due.  [Inv] holds in the initial state and is kept by every step of every run (step_inv). *)
+From Coq Require Import Lia.
+From Nice Require Import Gen.ConsentSession Gen.CompState Agent.KeepaliveModel Agent.ConsentSessionModel Agent.ConsentSessionProofs.
+
+Theorem C13_session_invariant : forall c L t s e, Inv c t s -> t <= time e -> ev_ok L s e = true -> Inv c (time e) (fst (step c s e)).
+Proof. exact step_inv. Qed.
+Print Assumptions C13_session_invariant.
+
+(** (1) STAYS USABLE.  [fed c s e]: when e happens the latest refresh of last_received (an accepted answer, or the first consent
+    check on the pair) is at most the consent timeout (30 s) old, and e is not an effective 403.  If that holds at every event of
+    a run - of any length, any interleaving, any latencies <= L - then after every event the send gate is open and no event
+    other than the environment's own state changes announces FAILED. *)
+Theorem C13_stays_usable : forall c L s t0 evs,
+  Inv c t0 s -> valid L c s t0 evs = true -> (selected s = true -> have s = true) -> always (fed c) c s evs ->
+  forall pre e post, evs = pre ++ e :: post ->
+    let s1 := exec c s pre in
+    send_allowed (selected (fst (step c s1 e))) (have (fst (step c s1 e))) = true /\
+    (is_env (what e) = false -> ~ In (OState FAILED) (snd (step c s1 e))).
+Proof. exact stays_usable. Qed.
+Print Assumptions C13_stays_usable.
+
+Example C13_stays_usable_nonvacuous :
+  Inv cfgF 1 s0 /\ valid 1000 cfgF s0 1 run_healthy = true /\ always (fed cfgF) cfgF s0 run_healthy /\
+  length run_healthy = 77%nat /\ snd (step cfgF (exec cfgF s0 (removelast run_healthy)) (ev 101000500 Send)) = [OSend true].
+Proof. split; [exact Inv_s0|]. split; [exact run_healthy_valid|]. split; [exact healthy_fed|]. split; [reflexivity|exact run_healthy_gate]. Qed.
+
+(** (2) EXPIRY.  From a state in which consent is held and the consent timer is armed (last_received s = T: the instant of the
+    last accepted answer), if no later event refreshes last_received, is an effective 403, or replaces / removes the selected pair
+    ([quiet]) and the run goes on beyond T + timeout + L, then some event e with T + timeout < time e <= T + timeout + L clears
+    [have]; that step announces FAILED (unless the component was FAILED already) and leaves it FAILED; consent was held until
+    then; and from then on [have] stays false and every Send is refused with the permission error. *)
+Theorem C13_expiry : forall c L s t0 evs d,
+  Inv c t0 s -> valid L c s t0 evs = true -> have s = true -> ct_timer s = Some d -> always (quiet c) c s evs ->
+  (exists e', In e' evs /\ last_received s + tmo c + L < time e') ->
+  exists pre e post, evs = pre ++ e :: post /\
+    last_received s + tmo c < time e <= last_received s + tmo c + L /\
+    have (exec c s pre) = true /\ have (fst (step c (exec c s pre) e)) = false /\
+    (In (OState FAILED) (snd (step c (exec c s pre) e)) \/ cst (exec c s pre) = FAILED) /\
+    cst (fst (step c (exec c s pre) e)) = FAILED /\
+    (forall p2 e2 q2, post = p2 ++ e2 :: q2 ->
+       have (exec c s (pre ++ e :: p2)) = false /\ (what e2 = Send -> snd (step c (exec c s (pre ++ e :: p2)) e2) = [OSend false])).
+Proof. exact expiry. Qed.
+Print Assumptions C13_expiry.
+
+Example C13_expiry_nonvacuous :
+  (let s := exec cfgF s0 blackout_head in
+   have s = true /\ ct_timer s = Some 31000000 /\ last_received s = 1001000 /\
+   valid 1000 cfgF s 1001000 blackout_tail = true /\ always (quiet cfgF) cfgF s blackout_tail /\ In (ev 31003000 Send) blackout_tail) /\
+  tmo cfgF = 30000000 /\
+  filter (fun p => match snd p with [] => false | _ => negb (transmits (snd p)) end) (outputs cfgF s0 run_blackout)
+  = [(31000999, [OSend true]); (31001001, [OState FAILED]); (31001002, [OSend false]); (31003000, [OSend false]); (31003002, [OSend false])].
+Proof. split; [exact blackout_hyps|]. split; [reflexivity|exact run_blackout_outputs]. Qed.
+
+(** ... and the closed gate stays closed whatever happens (late answers, ticks, restarts, state changes), for ever: only a new
+    selected pair (conn_check_update_selected_pair, nice_agent_set_selected_pair) or the removal of the pair changes that. *)
+Theorem C13_gate_stays_closed : forall c s evs,
+  selected s = true -> have s = false -> Forall (fun e => reselects (what e) = false) evs ->
+  forall pre e post, evs = pre ++ e :: post ->
+    selected (exec c s pre) = true /\ have (exec c s pre) = false /\ (what e = Send -> snd (step c (exec c s pre) e) = [OSend false]).
+Proof. exact gate_stays_closed. Qed.
+Print Assumptions C13_gate_stays_closed.
+
+Theorem C13_gate_reopens_only_by_new_pair : forall c s e,
+  selected s = true -> have s = false ->
+  send_allowed (selected (fst (step c s e))) (have (fst (step c s e))) = true -> reselects (what e) = true.
+Proof. exact reopen_only_by_new_pair. Qed.
+Print Assumptions C13_gate_reopens_only_by_new_pair.
+
+(** (3) 403.  [forbids c s a]: a is an answer with error code 403 whose transaction id is remembered, whose MESSAGE-INTEGRITY is
+    good, under consent freshness, from the remote address of the selected pair. *)
+Theorem C13_403_closes_at_once : forall c s e,
+  forbids c s (what e) = true ->
+  selected (fst (step c s e)) = true /\ have (fst (step c s e)) = false /\ ct_timer (fst (step c s e)) = None /\
+  cst (fst (step c s e)) = FAILED /\ (In (OState FAILED) (snd (step c s e)) \/ cst s = FAILED) /\
+  (forall e2, what e2 = Send -> snd (step c (fst (step c s e)) e2) = [OSend false]).
+Proof. exact forbidden_closes. Qed.
+Print Assumptions C13_403_closes_at_once.
+
+Theorem C13_403_unauthenticated_or_unmatched_ignored : forall c s e tid auth fs,
+  what e = Answer tid auth (KError 403) fs -> fresh c = true ->
+  known tid s = false \/ auth = false \/ fs = false \/ selected s = false ->
+  step c s e = (s, []).
+Proof. exact forbidden_ineffective. Qed.
+Print Assumptions C13_403_unauthenticated_or_unmatched_ignored.
+
+Example C13_403_nonvacuous :
+  let s := exec cfgF s0 [ev 1000000 (NewPair ByNomination 800000)] in
+  forbids cfgF s (Answer 1 true (KError 403) true) = true /\
+  snd (step cfgF s (ev 1001000 (Answer 1 true (KError 403) true))) = [OState FAILED] /\
+  step cfgF s (ev 1001000 (Answer 1 false (KError 403) true)) = (s, []) /\
+  step cfgF s (ev 1001000 (Answer 7 true (KError 403) true)) = (s, []).
+Proof. vm_compute. repeat split; reflexivity. Qed.
+
+(** (4) LOCAL REVOCATION: after nice_agent_consent_lost every authenticated check is answered 403 and never 200 - until an ICE
+    restart, which gives consent back (nice_component_restart; documented) - and before it, 200. *)
+Theorem C13_revoked_answers_403 : forall c s pre rev mid chk,
+  fresh c = true -> what rev = RevokeLocal -> Forall (fun e => is_restart (what e) = false) mid -> what chk = IncomingCheck true ->
+  snd (step c (exec c s (pre ++ rev :: mid)) chk) = [OAnswer 403].
+Proof. exact revoked_answers_403. Qed.
+Print Assumptions C13_revoked_answers_403.
+
+Theorem C13_unrevoked_answers_200 : forall c s pre chk,
+  local_consent s = true -> Forall (fun e => is_revoke (what e) = false) pre -> what chk = IncomingCheck true ->
+  snd (step c (exec c s pre) chk) = [OAnswer 200].
+Proof. exact unrevoked_answers_200. Qed.
+Print Assumptions C13_unrevoked_answers_200.
+
+Theorem C13_revocation_survives_restart_refuted :
+  outputs cfgF s0 [ev 10 RevokeLocal; ev 20 (IncomingCheck true); ev 30 Restart; ev 40 (IncomingCheck true)]
+  = [(10, [ORevoke true]); (20, [OAnswer 403]); (30, [OState GATHERING]); (40, [OAnswer 200])].
+Proof. exact revocation_survives_restart_refuted. Qed.
+Print Assumptions C13_revocation_survives_restart_refuted.
+
+(** (5) SILENCE BOUND.  After an event e1 that transmits on the selected pair, as long as the events that follow neither transmit
+    nor replace / remove the pair and the keepalive timer is not stopped ([calm]), the next event e2 of any kind - in particular
+    the next transmission - comes less than 6 s + L after a consent check (re-arm 5 s x [0.8, 1.2), at least 4 s) and at most
+    25 s + L after an indication (Tr).  (General form, for either value of forget_prev; see C13_silence_bound_since_fix below.) *)
+Theorem C13_silence_bound : forall c L s t0 pre e1 mid e2 post,
+  Inv c t0 s -> valid L c s t0 (pre ++ e1 :: mid ++ e2 :: post) = true ->
+  transmits (snd (step c (exec c s pre) e1)) = true ->
+  always (calm c) c (fst (step c (exec c s pre) e1)) mid ->
+  (has_check (snd (step c (exec c s pre) e1)) = true -> time e2 - time e1 < 6000000 + L) /\
+  (has_check (snd (step c (exec c s pre) e1)) = false -> time e2 - time e1 <= 25000000 + L).
+Proof. exact silence_bound. Qed.
+Print Assumptions C13_silence_bound.
+
+Example C13_silence_bound_nonvacuous :
+  run_healthy = [] ++ ev 1000000 (NewPair ByNomination 800000) :: firstn 2 (skipn 1 run_healthy) ++ ev 5000000 (KeepaliveTick 800000) :: skipn 4 run_healthy /\
+  transmits (snd (step cfgF (exec cfgF s0 []) (ev 1000000 (NewPair ByNomination 800000)))) = true /\
+  always (calm cfgF) cfgF (fst (step cfgF (exec cfgF s0 []) (ev 1000000 (NewPair ByNomination 800000)))) (firstn 2 (skipn 1 run_healthy)).
+Proof. exact healthy_calm. Qed.
+
+(** the keepalive timer is stopped by one thing only: a consent check is due and - after the previous keepalive transaction of the
+    pair has been forgotten ([prep]) - the StunAgent of the component has no free slot (STUN_AGENT_MAX_SAVED_IDS) for its transaction *)
+Theorem C13_keepalive_timer_stops_only_when_table_full : forall c L s e,
+  ev_ok L s e = true -> ka_timer s <> None -> ka_timer (fst (step c s e)) = None ->
+  table_full (prep c s) = true /\ do_cc c && creds s = true /\ exists m, what e = KeepaliveTick m.
+Proof. exact keepalive_timer_stops_only_when_table_full. Qed.
+Print Assumptions C13_keepalive_timer_stops_only_when_table_full.
+
+(** ... which, since fix e9d3c51 (forget_prev c = true: the keepalive tick forgets the pair's previous keepalive transaction, answered or
+    not, before it builds the next check), lost answers can no longer bring about.  [J]: transaction ids are fresh and the current
+    keepalive transaction is remembered at most once (true initially, kept by every step); [others s]: remembered transactions other than
+    the current keepalive transaction; [count_resel evs]: the NewPair / ClearPair events of evs (nice_component_clear_selected_pair memsets
+    keepalive.has_transaction without forgetting the transaction: one id is left behind per pair change).
+    The table never holds more than others s + pair changes + 1 ids, for runs of any length and any loss pattern: *)
+Theorem C13_outstanding_bounded : forall c s evs, forget_prev c = true -> J s ->
+  (length (outstanding (exec c s evs)) <= others s + count_resel evs + 1)%nat.
+Proof. exact outstanding_bounded. Qed.
+Print Assumptions C13_outstanding_bounded.
+
+(** ... hence the keepalive timer is never stopped (with fewer than STUN_AGENT_MAX_SAVED_IDS ids left behind by pair changes): *)
+Theorem C13_keepalive_timer_never_stops : forall c L s t0 evs, forget_prev c = true ->
+  valid L c s t0 evs = true -> J s -> Z.of_nat (others s + count_resel evs) < MAX_SAVED_IDS -> ka_timer s <> None ->
+  forall pre e post, evs = pre ++ e :: post -> ka_timer (fst (step c (exec c s pre) e)) <> None.
+Proof. exact keepalive_timer_never_stops. Qed.
+Print Assumptions C13_keepalive_timer_never_stops.
+
+(** ... and (5) holds without the side condition on the timer: [calm0] = the event neither transmits nor replaces / removes the pair. *)
+Theorem C13_silence_bound_since_fix : forall c L s t0 pre e1 mid e2 post,
+  forget_prev c = true -> Inv c t0 s -> J s -> valid L c s t0 (pre ++ e1 :: mid ++ e2 :: post) = true ->
+  Z.of_nat (others s + count_resel (pre ++ [e1])) < MAX_SAVED_IDS ->
+  transmits (snd (step c (exec c s pre) e1)) = true ->
+  always (calm0 c) c (fst (step c (exec c s pre) e1)) mid ->
+  (has_check (snd (step c (exec c s pre) e1)) = true -> time e2 - time e1 < 6000000 + L) /\
+  (has_check (snd (step c (exec c s pre) e1)) = false -> time e2 - time e1 <= 25000000 + L).
+Proof. exact silence_bound_fixed. Qed.
+Print Assumptions C13_silence_bound_since_fix.
+
+Example C13_silence_bound_since_fix_nonvacuous :
+  forget_prev cfgF = true /\ (J s0 /\ others s0 = O) /\
+  always (calm0 cfgF) cfgF (fst (step cfgF (exec cfgF s0 []) (ev 1000000 (NewPair ByNomination 800000)))) (firstn 2 (skipn 1 run_healthy)) /\
+  Z.of_nat (others s0 + count_resel ([] ++ [ev 1000000 (NewPair ByNomination 800000)])) < MAX_SAVED_IDS.
+Proof. split; [reflexivity|]. split; [exact J_s0|exact healthy_calm0]. Qed.
+
+(** REGRESSION.  On the code before the fix (cfgOld) a valid run in which the peer answers every fifth check (consent never older than
+    20 s): after 200 lost answers the keepalive timer is stopped, the last packet leaves at 997 s, and at 1011 s the pair is still
+    selected, consent held, sends pass - 14 s of silence.  On the same loss pattern the code since the fix (cfgF) keeps sending every
+    4 s and remembers one transaction. *)
+Theorem C13_silence_bound_when_ids_leak_before_fix :
+  valid 1000 cfgOld s0 1 run_leak = true /\
+  selected (exec cfgOld s0 run_leak) = true /\ have (exec cfgOld s0 run_leak) = true /\
+  ka_timer (exec cfgOld s0 run_leak) = None /\ table_full (exec cfgOld s0 run_leak) = true /\
+  last_tx (outputs cfgOld s0 run_leak) = 997000000 /\
+  snd (step cfgOld (exec cfgOld s0 (removelast run_leak)) (ev 1011000000 Send)) = [OSend true].
+Proof. exact silence_bound_when_ids_leak_before_fix. Qed.
+Print Assumptions C13_silence_bound_when_ids_leak_before_fix.
+
+Theorem C13_ids_do_not_leak_since_fix :
+  valid 1000 cfgF s0 1 run_leak_fixed = true /\
+  selected (exec cfgF s0 run_leak_fixed) = true /\ have (exec cfgF s0 run_leak_fixed) = true /\
+  ka_timer (exec cfgF s0 run_leak_fixed) = Some 1001020000 /\ length (outstanding (exec cfgF s0 run_leak_fixed)) = 1%nat /\
+  last_tx (outputs cfgF s0 run_leak_fixed) = 1001000000.
+Proof. exact ids_do_not_leak_since_fix. Qed.
+Print Assumptions C13_ids_do_not_leak_since_fix.
+
+(** "consent expires unless AUTHENTICATED answers keep arriving" is false on the code: error responses 400 / 401 / 438 / 300 with a
+    remembered transaction id pass stun_agent_validate without MESSAGE-INTEGRITY and refresh last_received.  A valid 100 s run
+    whose only answers are unauthenticated 401s: consent held throughout, never FAILED, sends pass. *)
+Theorem C13_consent_needs_authenticated_answer_refuted :
+  valid 1000 cfgF s0 1 run_unauth = true /\
+  existsb (fun e => match what e with Answer _ true _ _ => true | _ => false end) run_unauth = false /\
+  have (exec cfgF s0 run_unauth) = true /\ cst (exec cfgF s0 run_unauth) = CONNECTING /\
+  snd (step cfgF (exec cfgF s0 (removelast run_unauth)) (ev 101000500 Send)) = [OSend true].
+Proof. exact consent_needs_authenticated_answer_refuted. Qed.
+Print Assumptions C13_consent_needs_authenticated_answer_refuted.
+
+(** (6) THE SEND GATE: in every state reached by any event sequence whatsoever, a send changes nothing and its result is the
+    one-line specification [send_allowed selected have = negb (selected && negb have)]. *)
+Theorem C13_send_gate_refines : forall c s pre e,
+  what e = Send ->
+  step c (exec c s pre) e = (exec c s pre, [OSend (send_allowed (selected (exec c s pre)) (have (exec c s pre)))]).
+Proof. exact send_gate_refines. Qed.
+Print Assumptions C13_send_gate_refines.
